@@ -131,6 +131,7 @@ pub fn handle_with(mut rq: Request, prog: &Prog, nonce: &str, client_len: usize,
         Finish::Drop => "drop",
         Finish::Panic => "panic",
         Finish::WriterUnused => "writer-unused",
+        Finish::RespondFailing { .. } => "respond-failing",
     }
     .to_string();
     let slot = {
@@ -146,7 +147,34 @@ pub fn handle_with(mut rq: Request, prog: &Prog, nonce: &str, client_len: usize,
                 sink.lock().unwrap()[slot].respond_err = Some(format!("{:?}: {}", e.kind(), e));
             }
         }
-        Finish::Writer { body_len, cuts, flush_mask } => {
+        Finish::RespondFailing { declared_len, fail_after, panic } => {
+            struct Failing {
+                left: usize,
+                panic: bool,
+            }
+            impl Read for Failing {
+                fn read(&mut self, buf: &mut [u8]) -> std::io::Result<usize> {
+                    if self.left == 0 {
+                        if self.panic {
+                            std::panic::panic_any(vcore::panics::HarnessPanic);
+                        }
+                        return Err(std::io::Error::new(std::io::ErrorKind::Other, "body source failed"));
+                    }
+                    let n = self.left.min(buf.len()).min(7);
+                    for b in buf[..n].iter_mut() {
+                        *b = b'x';
+                    }
+                    self.left -= n;
+                    Ok(n)
+                }
+            }
+            let resp = Response::new(StatusCode(200), vec![Header::from_bytes(&b"X-Rid"[..], id.to_string().as_bytes()).unwrap()], Failing { left: *fail_after, panic: *panic }, Some(*declared_len), None);
+            let r = std::panic::catch_unwind(std::panic::AssertUnwindSafe(move || rq.respond(resp)));
+            if let Ok(Err(e)) = r {
+                sink.lock().unwrap()[slot].respond_err = Some(format!("{:?}: {}", e.kind(), e));
+            }
+        }
+        Finish::Writer { body_len, cuts, flush_mask, zero_writes } => {
             let bytes = writer_bytes(id, *body_len);
             let mut w = rq.into_writer();
             let mut points: Vec<usize> = cuts.iter().map(|c| (*c as usize * bytes.len()) / 1024).collect();
@@ -155,6 +183,9 @@ pub fn handle_with(mut rq: Request, prog: &Prog, nonce: &str, client_len: usize,
             let mut from = 0;
             for (i, p) in points.iter().enumerate() {
                 let p = (*p).min(bytes.len()).max(from);
+                if *zero_writes {
+                    let _ = w.write(&[]);
+                }
                 let _ = w.write_all(&bytes[from..p]);
                 if (flush_mask >> (i % 8)) & 1 == 1 {
                     let _ = w.flush();
